@@ -366,7 +366,7 @@ class Server:
         elif ctype == 'application/json-patch+json':
             try:
                 self.doc = canon.apply6902(self.doc, payload)
-            except (canon.PatchTestFailed, canon.PatchInvalid):
+            except (canon.PatchTestFailed, canon.PatchInvalid, IndexError, KeyError, ValueError, TypeError):   # invalid for this document
                 req['status'] = 422
                 raise self.env.errors.APIUnprocessableEntityError(None, status=422, headers={})
         else:
